@@ -77,6 +77,9 @@ def run_case(case):
     if not r['killed']:
         # the scenario finished before reaching event n (counting run and victim run differ): nothing to judge
         return Result([], False, ['not-killed'], {'case': case, 'result': r})
+    if r.get('probe_before_reaping_ok') is False:
+        viol.append(V('lock-stuck', f"{desc}: the victim was dead but not yet reaped by its parent (a zombie), nobody else was "
+                      f"contending, and a fresh FileLock could not acquire the lock file", 'lock-stuck:before-reaping'))
     if not r['probe_ok']:
         viol.append(V('lock-stuck', f"{desc}: after the victim was reaped a fresh FileLock could not acquire the lock file",
                       'lock-stuck'))
